@@ -389,7 +389,7 @@ def tree_view(res, keep_data=False):
             res['verr'] = _tv_err(res['verr'])
         return res
     v = res['v']
-    if isinstance(v, list) and len(v) == 2 and v[0] == 'exit':
+    if isinstance(v, list) and v and v[0] in ('exit', 'exit2'):
         return res       # the command's exit status
     if isinstance(v, list) and len(v) == 2 and isinstance(v[1], list) and \
             (not v[1] or (isinstance(v[1][0], list) and v[1][0] and str(v[1][0][0]).startswith('XMLSchema'))) \
@@ -408,6 +408,8 @@ def drop_data(res):
     if res['k'] != 'ok':
         return res
     v = res['v']
+    if isinstance(v, list) and v and v[0] in ('exit', 'exit2'):
+        return res       # the command's exit status
     if isinstance(v, list) and len(v) == 2 and isinstance(v[1], list) and \
             (not v[1] or (isinstance(v[1][0], list) and v[1][0] and str(v[1][0][0]).startswith('XMLSchema'))) \
             and not (v and isinstance(v[0], list) and v[0] and str(v[0][0]).startswith('XMLSchema')):
